@@ -114,7 +114,10 @@ Record comp := { c_id : nat; c_n : nat; c_S : mx K }.
 Definition comp_pins (c : comp) : list spin := map (fun k => (c_id c, k)) (seq 0 (c_n c)).
 Definition lst_of_comp (c : comp) : lst := {| l_pins := comp_pins c; l_S := c_S c |}.
 
-Record netlist := { comps : list comp; conns : list conn; expo : list spin }.
+(* a netlist: components are given with their (globally named) pins *)
+Record netlist := { comps : list lst; conns : list conn; expo : list spin }.
+
+Definition allpins (live : list lst) : list spin := concat (map l_pins live).
 
 Definition waves := spin -> K.
 
@@ -128,9 +131,9 @@ Definition Sem (A : lst) (a b : waves) : Prop :=
 Definition ext (ex : list spin) (u : waves) (x : spin) : K := if mem x ex then u x else 0.
 
 Definition wave_solution (net : netlist) (u a b : waves) : Prop :=
-  (forall c, In c (comps net) -> Sem (lst_of_comp c) a b) /\
+  (forall L, In L (comps net) -> Sem L a b) /\
   (forall x y, In (x, y) (conns net) -> a x == b y /\ a y == b x) /\
-  (forall x, partner (conns net) x = None -> a x == ext (expo net) u x).
+  (forall x, In x (allpins (comps net)) -> partner (conns net) x = None -> a x == ext (expo net) u x).
 
 (* what a solved result (ordered pins + matrix) claims about the circuit *)
 Definition reports (net : netlist) (T : lst) : Prop :=
@@ -141,4 +144,4 @@ End Net.
 Arguments l_pins {K}. Arguments l_S {K}. Arguments c_id {K}. Arguments c_n {K}. Arguments c_S {K}.
 Arguments comp_pins {K}. Arguments lst_of_comp {K}. Arguments comps {K}. Arguments conns {K}.
 Arguments expo {K}. Arguments Sem {K}. Arguments ext {K}. Arguments wave_solution {K}.
-Arguments reports {K}.
+Arguments reports {K}. Arguments allpins {K}.
